@@ -12,6 +12,7 @@ import (
 	"github.com/hknutzen/Netspoc-Approve/go/pkg/mytime"
 	"github.com/hknutzen/Netspoc-Approve/go/pkg/program"
 	"github.com/hknutzen/Netspoc-Approve/go/pkg/status"
+	"github.com/hknutzen/Netspoc-Approve/go/pkg/verifhook"
 	"github.com/spf13/pflag"
 )
 
@@ -80,6 +81,7 @@ func Main() int {
 	if err != nil {
 		return abort("%v", err)
 	}
+	verifhook.Point("doapprove.locked")
 	hLog, err := openHistoryLog(cfg, devName)
 	if err != nil {
 		return abort("can't %v", err)
@@ -121,6 +123,7 @@ func Main() int {
 	}
 
 	// Update status file.
+	verifhook.Point("doapprove.before-status")
 	if isCompare {
 		status.SetCompare(cfg, devName, policy, changed || errors)
 	} else {
